@@ -26,12 +26,23 @@ mv /tmp/demo_$name.go.txt $demo
 with_demo=$(go test -count=1 $demopkg 2>&1 | tail -1)
 cd /verif
 git -C /repo worktree remove --force $scr
-# run the check against the change applied to /repo
-git -C /repo apply $patch
-out=$(/verif/bin/govc check --property $prop 2>&1 | grep -E "VIOLATION|ERROR|^property=" | head -8)
-rc=$?
-git -C /repo checkout -- .
-cp /verif/evidence/$prop.json /tmp/evidence_$prop.seeded.json 2>/dev/null
+# run the check against the change: on /repo itself (apply, check, undo) unless
+# SEED_EVAL_SCRATCH=1, in which case a scratch copy outside /repo and /verif is
+# used (needed while another job is using /repo's working tree)
+if [ "${SEED_EVAL_SCRATCH:-0}" = 1 ]; then
+  sc=$(mktemp -d /tmp/govc_seedeval_XXXXXX); mkdir -p $sc/repo $sc/verif
+  git -C /repo archive HEAD | tar -x -C $sc/repo
+  (cd $sc/repo && patch -p1 -s --no-backup-if-mismatch < $patch)
+  ln -s /verif/contracts $sc/verif/contracts; cp /verif/known_findings.json $sc/verif/
+  out=$(GOVC_REPO=$sc/repo VERIF_DIR=$sc/verif /verif/bin/govc check --property $prop 2>&1 | grep -E "VIOLATION|ERROR|^property=" | sed "s|$sc||g" | head -8)
+  rm -rf $sc
+else
+  git -C /repo apply $patch
+  sv=$(mktemp -d /tmp/govc_seedeval_XXXXXX); ln -s /verif/contracts $sv/contracts; cp /verif/known_findings.json $sv/
+  out=$(VERIF_DIR=$sv /verif/bin/govc check --property $prop 2>&1 | grep -E "VIOLATION|ERROR|^property=" | sed "s|$sv||g" | head -8)
+  git -C /repo checkout -- .
+  rm -rf $sv
+fi
 echo "== $name ($prop)"
 echo "demo on unchanged: $base_demo"
 echo "build with change: ${build:-ok}"
@@ -51,4 +62,3 @@ try:
 except Exception: pass
 json.dump(meta,open(f'/verif/seeded/{name}/meta.json','w'),indent=1)
 PY
-# restore evidence of the unchanged tree later by re-running the check
